@@ -229,8 +229,9 @@ void zoom_shift(const numpy::aligned_array<FT> array, PyArrayObject* zoom_ar,
     assert(!zoom_ar || PyArray_DIM(zoom_ar, 0) >= rank);
 
     std::vector< std::vector<bool> > zeros;
-    /* if the mode is 'constant' we need some temps later: */
-    if (mode == ExtendConstant) {
+    /* if the mode is 'constant' (or 'ignore', which fix_offset flags in the
+     * same way) we need some temps later: */
+    if (mode == ExtendConstant || mode == ExtendIgnore) {
         for(int r = 0; r < rank; r++) {
             zeros.push_back( std::vector<bool>(output.dim(r)) );
         }
